@@ -51,7 +51,7 @@ type c15Op struct {
 
 func c15(r *core.Run) []*core.Violation {
 	t := r.Tape
-	long := r.Tier == "thorough" && t.Draw(96) == 95 // genuine window roll-over: > 57 600 blocks
+	long := r.Tier == "thorough" && t.Draw(750) == 749 // genuine window roll-over: > 57 600 blocks
 	cfg := BridgeCfg{Chains: []ChainSpec{{"eth-main", 1}}}
 	cfg.NVals = 1
 	cfg.NUsers = 4
